@@ -127,6 +127,30 @@ func runC09(c *an.Ctx) {
 				c.Fail("C09.a", "send-other", "a per-peer goroutine reports headers[0] of its request or the zero header", cl, sd, "h="+hTerm, cf.AtInstr(sd))
 			}
 		})
+		// each asked peer answers exactly once: the collecting loop reads one message per peer, a second
+		// message from one peer pushes another peer's answer out of the count, a missing one blocks it
+		{
+			isAnswer := func(in ssa.Instruction) bool {
+				sd, isSend := in.(*ssa.Send)
+				return isSend && strings.Contains(ct.Of(sd.Chan), "fv:headerRespCh")
+			}
+			fl := an.Flow{Fn: cl}
+			an.Instrs(cl, func(in ssa.Instruction) {
+				if !isAnswer(in) {
+					return
+				}
+				twice := false
+				an.Instrs(cl, func(in2 ssa.Instruction) {
+					if isAnswer(in2) && fl.CanReach(in, in2) {
+						twice = true
+					}
+				})
+				c.Check(!twice, "C09.c", "one-answer-per-peer", "a per-peer goroutine sends at most one answer (the collecting loop reads exactly one message per asked peer)", cl, in, "", nil)
+			})
+			for _, r := range cf.Returns() {
+				c.Check(fl.MustPrecede(isAnswer, r), "C09.c", "answer-before-exit", "a per-peer goroutine sends its answer on every way out", cl, r, "", nil)
+			}
+		}
 		// under a failed hard verification no non-zero header may be sent
 		an.Instrs(cl, func(in ssa.Instruction) {
 			sd, isSend := in.(*ssa.Send)
@@ -278,6 +302,55 @@ func runC09(c *an.Ctx) {
 			}
 			c.Check(okR, "C09.b", "fallback-return-pair", "the fallback returns the chosen header together with the soft error recorded for exactly that header", head, r, "returns ("+r0+", "+r1+")", fs)
 			c.Check(okSort && okLess, "C09.d", "fallback-highest", "without quorum the collected heads are sorted descending by Height() and the first (highest) is returned", head, r, "", nil)
+			nonEmpty := false
+			for _, f := range fs {
+				if f.Op == "EQ" && !f.Pos && (f.A == "0" && f.B == "len("+base+")" || f.B == "0" && f.A == "len("+base+")") {
+					nonEmpty = true
+				}
+			}
+			c.Check(nonEmpty, "C09.d", "fallback-nonempty", "element 0 is taken only from a non-empty collection", head, r, "", fs)
+		case sh == "nil" || strings.HasPrefix(r1, softMap+"["):
+			// the fallback written as a single pass: a running maximum over the collected heads
+			hi, isPhi := ht.Deref(r.Results[0]).(*ssa.Phi)
+			if !isPhi {
+				break
+			}
+			nFallback++
+			hiT := ht.Of(hi)
+			base, okMax, why := "", true, ""
+			for i, e := range hi.Edges {
+				pred := hi.Block().Preds[i]
+				if !hf.Dominates(hi.Block(), pred) {
+					// start value: the first collected head
+					et := ht.Of(e)
+					if !strings.HasSuffix(an.Stable(et), "[0]") {
+						okMax, why = false, "the running value does not start at element 0"
+					}
+					base = strings.TrimSuffix(et, "[0]")
+					continue
+				}
+				// carried value: the running one, or a head strictly above THE RUNNING ONE
+				var leaves func(v ssa.Value, fs an.FactSet, depth int)
+				leaves = func(v ssa.Value, fs an.FactSet, depth int) {
+					if v == ssa.Value(hi) {
+						return
+					}
+					if p2, ok := v.(*ssa.Phi); ok && depth < 3 {
+						for _, pe := range hf.PhiOperands(p2) {
+							leaves(pe.Val, pe.Facts, depth+1)
+						}
+						return
+					}
+					vt := ht.Of(v)
+					if !(fs.Has(an.LT("Height("+hiT+")", "Height("+vt+")")) || fs.Has(an.GE("Height("+vt+")", "Height("+hiT+")"))) {
+						okMax, why = false, "a head replaces the running value without being compared with it: "+an.Stable(vt)
+					}
+				}
+				leaves(e, hf.EdgeFacts(pred, hi.Block()), 0)
+			}
+			okR := strings.HasPrefix(r1, softMap+"[Hash.String(Hash("+r0+"))]")
+			c.Check(okR, "C09.b", "fallback-return-pair", "the fallback returns the chosen header together with the soft error recorded for exactly that header", head, r, "returns ("+r0+", "+r1+")", fs)
+			c.Check(okMax && base != "", "C09.d", "fallback-highest", "without quorum the highest of the collected heads is returned (a running maximum: a head replaces the running value only when it is above it)", head, r, why, nil)
 			nonEmpty := false
 			for _, f := range fs {
 				if f.Op == "EQ" && !f.Pos && (f.A == "0" && f.B == "len("+base+")" || f.B == "0" && f.A == "len("+base+")") {
